@@ -12,6 +12,10 @@ CLAIMED = {
         "text": "bounded: real Executor.CreateOperationContext/parseQuery/DispatchOperation with the real gqlparser interpreted, over a 12-request corpus x symbolic mutator verdicts x cache states x suggestion setting; hook order over all lists of <=3 extensions from 5 hook subsets; the solver decides every branch and assertion inside these bounds",
         "design_ref": "DESIGN.md section 4, C03", "note": _N, "technique": _T,
     },
+    "C07": {
+        "text": "one-step induction on the POST parameter pool (arbitrary body x executor outcome incl. panics; pooled object all-zero again) plus all two-request histories over an 11-body corpus; other transports allocate per request (checked by the same harness family as C09)",
+        "design_ref": "DESIGN.md section 4, C07", "note": _N + "; sync.Pool modelled as LIFO-or-New", "technique": _T,
+    },
     "C08": {
         "text": "bounded/full width: writeQuotedString, MarshalString, MarshalID on every byte string up to length 3 (quick) / 4 (thorough) against an independent RFC 8259 + RFC 3629 oracle",
         "design_ref": "DESIGN.md section 4, C08", "note": _N, "technique": _T,
@@ -23,6 +27,10 @@ CLAIMED = {
     "C10": {
         "text": "bounded: AddUpload over variables trees of depth <=2 x corpus paths; bytesReader from an arbitrary valid state with full-width offsets",
         "design_ref": "DESIGN.md section 4, C10", "note": _N, "technique": _T,
+    },
+    "C15": {
+        "text": "one-step induction: from every invariant-satisfying cache state (key = SHA-256(text)), one request over 3 texts x 11 extension shapes keeps the invariant, resolves hash-only requests to matching text or NotFound, rejects mismatches without registering; every explored path is also replayed natively",
+        "design_ref": "DESIGN.md section 4, C15", "note": _N + "; SHA-256 computed natively on concrete texts, mapstructure.Decode is a contract model validated by the native replays", "technique": _T,
     },
     "C14": {
         "text": "safeAdd is decided for all 2^128 operand pairs (bit-vector SMT, no bound) against an independent saturating reference; complexity walk and limit gate bounded as listed in the evidence",
